@@ -20,24 +20,35 @@ def hdelta(old, piece, expr):
             '__CPROVER_ensures(self->_zobrist_hash._piece_key == (__CPROVER_old(self->_zobrist_hash._piece_key) ^ (%s != 1 ? (%s) : 0)))\n'
             % (K(piece), expr, K(piece), expr))
 
-C_ADD = ('__CPROVER_requires(piece >= 1 && piece <= 12 && square < 64 && wf_board(self) && wf_lists(self) && self->_board[square] == 0 && self->_piece_count[piece] < 10)\n'
+# exact effect on every touched word (the frame says nothing else changes); list rows are characterised by wf_row
+PREB = 'wf_board_at(self, %s) && wf_row(self, %s)'
+C_ADD = ('__CPROVER_requires(piece >= 1 && piece <= 12 && square < 64 && wf_board_at(self, square) && wf_row(self, piece) && self->_board[square] == 0 && self->_piece_count[piece] < 10)\n'
          '__CPROVER_assigns(self->_board[square], self->_by_color_bb[piece >= 7], self->_by_piece_kind_bb[(piece - 1) % 6 + 1], '
          'self->_piece_position[piece][self->_piece_count[piece]], self->_piece_count[piece], self->_zobrist_hash._piece_key, self->_zobrist_hash._pawn_key)\n'
-         '__CPROVER_ensures(self->_board[square] == piece && wf_board(self) && wf_lists(self))\n'
-         '__CPROVER_ensures(self->_piece_count[piece] == __CPROVER_old(self->_piece_count[piece]) + 1)\n'
+         '__CPROVER_ensures(self->_board[square] == piece)\n'
+         '__CPROVER_ensures(self->_by_color_bb[piece >= 7] == (__CPROVER_old(self->_by_color_bb[piece >= 7]) | (1ULL << square)))\n'
+         '__CPROVER_ensures(self->_by_piece_kind_bb[(piece - 1) % 6 + 1] == (__CPROVER_old(self->_by_piece_kind_bb[(piece - 1) % 6 + 1]) | (1ULL << square)))\n'
+         '__CPROVER_ensures(self->_piece_count[piece] == __CPROVER_old(self->_piece_count[piece]) + 1 && self->_piece_position[piece][self->_piece_count[piece] - 1] == square)\n'
+         '__CPROVER_ensures(wf_row(self, piece))\n'
          + hdelta(None, 'piece', 'PIECE_HASH[piece][square]'))
 OLDP = '__CPROVER_old(self->_board[square])'
-C_REM = ('__CPROVER_requires(square < 64 && wf_board(self) && wf_lists(self) && self->_board[square] >= 1 && self->_board[square] <= 12)\n'
+C_REM = ('__CPROVER_requires(square < 64 && wf_board_at(self, square) && self->_board[square] >= 1 && self->_board[square] <= 12 && wf_row(self, self->_board[square]))\n'
          '__CPROVER_assigns(self->_board[square], self->_by_color_bb[self->_board[square] >= 7], self->_by_piece_kind_bb[(self->_board[square] - 1) %% 6 + 1], '
-         '__CPROVER_object_upto(self->_piece_position[self->_board[square]], 40), self->_piece_count[self->_board[square]], self->_zobrist_hash._piece_key, self->_zobrist_hash._pawn_key)\n'
-         '__CPROVER_ensures(self->_board[square] == 0 && wf_board(self) && wf_lists(self))\n'
-         '__CPROVER_ensures(self->_piece_count[%s] == __CPROVER_old(self->_piece_count[self->_board[square]]) - 1)\n' % OLDP
+         'self->_piece_position[self->_board[square]][0], self->_piece_position[self->_board[square]][1], self->_piece_position[self->_board[square]][2], self->_piece_position[self->_board[square]][3], self->_piece_position[self->_board[square]][4], self->_piece_position[self->_board[square]][5], self->_piece_position[self->_board[square]][6], self->_piece_position[self->_board[square]][7], self->_piece_position[self->_board[square]][8], self->_piece_position[self->_board[square]][9], self->_piece_count[self->_board[square]], self->_zobrist_hash._piece_key, self->_zobrist_hash._pawn_key)\n'
+         '__CPROVER_ensures(self->_board[square] == 0)\n'
+         '__CPROVER_ensures(self->_by_color_bb[%s >= 7] == (__CPROVER_old(self->_by_color_bb[self->_board[square] >= 7]) & ~(1ULL << square)))\n'
+         '__CPROVER_ensures(self->_by_piece_kind_bb[(%s - 1) %% 6 + 1] == (__CPROVER_old(self->_by_piece_kind_bb[(self->_board[square] - 1) %% 6 + 1]) & ~(1ULL << square)))\n'
+         '__CPROVER_ensures(self->_piece_count[%s] == __CPROVER_old(self->_piece_count[self->_board[square]]) - 1)\n'
+         '__CPROVER_ensures(wf_row(self, %s))\n' % (OLDP, OLDP, OLDP, OLDP)
          + hdelta(None, OLDP, 'PIECE_HASH[%s][square]' % OLDP))
 OLDF = '__CPROVER_old(self->_board[from])'
-C_MOV = ('__CPROVER_requires(from < 64 && to < 64 && from != to && wf_board(self) && wf_lists(self) && self->_board[from] >= 1 && self->_board[from] <= 12 && self->_board[to] == 0)\n'
+C_MOV = ('__CPROVER_requires(from < 64 && to < 64 && from != to && wf_board_at(self, from) && wf_board_at(self, to) && self->_board[from] >= 1 && self->_board[from] <= 12 && self->_board[to] == 0 && wf_row(self, self->_board[from]))\n'
          '__CPROVER_assigns(self->_board[from], self->_board[to], self->_by_color_bb[self->_board[from] >= 7], self->_by_piece_kind_bb[(self->_board[from] - 1) %% 6 + 1], '
-         '__CPROVER_object_upto(self->_piece_position[self->_board[from]], 40), self->_zobrist_hash._piece_key, self->_zobrist_hash._pawn_key)\n'
-         '__CPROVER_ensures(self->_board[from] == 0 && self->_board[to] == %s && wf_board(self) && wf_lists(self))\n' % OLDF
+         'self->_piece_position[self->_board[from]][0], self->_piece_position[self->_board[from]][1], self->_piece_position[self->_board[from]][2], self->_piece_position[self->_board[from]][3], self->_piece_position[self->_board[from]][4], self->_piece_position[self->_board[from]][5], self->_piece_position[self->_board[from]][6], self->_piece_position[self->_board[from]][7], self->_piece_position[self->_board[from]][8], self->_piece_position[self->_board[from]][9], self->_zobrist_hash._piece_key, self->_zobrist_hash._pawn_key)\n'
+         '__CPROVER_ensures(self->_board[from] == 0 && self->_board[to] == %s)\n'
+         '__CPROVER_ensures(self->_by_color_bb[%s >= 7] == ((__CPROVER_old(self->_by_color_bb[self->_board[from] >= 7]) & ~(1ULL << from)) | (1ULL << to)))\n'
+         '__CPROVER_ensures(self->_by_piece_kind_bb[(%s - 1) %% 6 + 1] == ((__CPROVER_old(self->_by_piece_kind_bb[(self->_board[from] - 1) %% 6 + 1]) & ~(1ULL << from)) | (1ULL << to)))\n'
+         '__CPROVER_ensures(wf_row(self, %s))\n' % (OLDF, OLDF, OLDF, OLDF)
          + hdelta(None, OLDF, 'PIECE_HASH[%s][from] ^ PIECE_HASH[%s][to]' % (OLDF, OLDF)))
 
 MUT_CONTRACTS = {ADD: C_ADD, REM: C_REM, MOV: C_MOV}
@@ -47,13 +58,13 @@ def mutator_jobs(prefix=''):
     out = []
     h = ND + 'void h_add(void) { struct Position P = nondet_Position(); uint32_t pc = nondet_u32(), sq = nondet_u32(); %s(&P, pc, sq);' % ADD + CANARY + '}\n'
     out.append(Job(prefix + 'mut/add_piece', PTUS, [ADD], h, 'h_add', contracts={ADD: C_ADD}, enforce=ADD, spec=SPEC, post_spec=POST,
-                   timeout=1200, note='add_piece keeps board, bitboards and piece lists in step (full representation invariant), key delta'))
+                   timeout=1200, note='add_piece: exact effect on board, both bitboards, list slot and count; list row stays well-formed; key delta'))
     h = ND + 'void h_rem(void) { struct Position P = nondet_Position(); uint32_t sq = nondet_u32(); %s(&P, sq);' % REM + CANARY + '}\n'
     out.append(Job(prefix + 'mut/remove_piece', PTUS, [REM], h, 'h_rem', contracts={REM: C_REM}, enforce=REM, spec=SPEC, post_spec=POST,
                    unwindset=loops_unwind([('remove_piece', 11)]), route='closed-by-complete-unwinding(11): piece lists have 10 slots',
-                   timeout=1200, note='remove_piece keeps the representation invariant (swap-with-last in the list), key delta'))
+                   timeout=1200, note='remove_piece: exact effect on board and bitboards; list row stays well-formed (swap-with-last) with one entry fewer; key delta'))
     h = ND + 'void h_mov(void) { struct Position P = nondet_Position(); uint32_t a = nondet_u32(), b = nondet_u32(); %s(&P, a, b);' % MOV + CANARY + '}\n'
     out.append(Job(prefix + 'mut/move_piece', PTUS, [MOV], h, 'h_mov', contracts={MOV: C_MOV}, enforce=MOV, spec=SPEC, post_spec=POST,
                    unwindset=loops_unwind([('move_piece', 11)]), route='closed-by-complete-unwinding(11): piece lists have 10 slots',
-                   timeout=1200, note='move_piece keeps the representation invariant, key delta'))
+                   timeout=1200, note='move_piece: exact effect on board and bitboards; list row stays well-formed; key delta'))
     return out
